@@ -369,6 +369,9 @@ func Run(r *mon.Run) {
 			runServer(r, i, cfgs[i], per)
 		}
 	})
+	if r.WantEngine("broker") {
+		brokerNotices(r)
+	}
 	r.Floor("notices_checked", 500)
 	r.Floor("verbatim_expectations", 300)
 	r.Floor("refusal_notices_checked", 20)
